@@ -106,7 +106,7 @@ theorem toks_joinIx (sc : Scalar) (as : List Expr) :
       simp [joinP, toks_append, tkIx, ih, tk, tokExprC]
 
 theorem tk_call (sc f dt args) : tk sc (.call f dt args) =
-    .id (cMathName sc dt f) :: .p .lpar :: (tkArgs sc args ++ [.p .rpar]) := by
+    .id (cMathName sc args f) :: .p .lpar :: (tkArgs sc args ++ [.p .rpar]) := by
   simp [tk, tokExprC, piecesC, toks_append, toks_joinArgs]
 
 theorem tk_idx (sc arr dt ix) : tk sc (.idx arr dt ix) =
